@@ -76,23 +76,27 @@ def install():
     F = opcode_intercept.FormatStashingValue
     o_str, o_fmt, o_repr = F.__str__, F.__format__, F.__repr__
 
+    def _needs_placeholder(v):
+        """symbolic scalars and containers (which may hold symbolic values somewhere inside)"""
+        return isinstance(v, SYM) or type(v) in (list, tuple, dict) or isinstance(v, collections.abc.Mapping)
+
     def f_str(self):
         with NoTracing():
-            if isinstance(self.value, SYM):
+            if _needs_placeholder(self.value):
                 self.formatted = str(_placeholder(self.value))
                 return ""
         return o_str(self)
 
     def f_fmt(self, fmt):
         with NoTracing():
-            if isinstance(self.value, SYM):
+            if _needs_placeholder(self.value):
                 self.formatted = format(_placeholder(self.value), fmt)
                 return ""
         return o_fmt(self, fmt)
 
     def f_repr(self):
         with NoTracing():
-            if isinstance(self.value, SYM):
+            if _needs_placeholder(self.value):
                 self.formatted = repr(_placeholder(self.value))
                 return ""
         return o_repr(self)
